@@ -42,7 +42,12 @@ struct EmcyRun : NodeEnv {
         uint32_t fill = w.raw(0, 0x1003, 0); if (fill != hist.size()) { fail("emcy/history-count", "1003h:0 = " + std::to_string(fill) + ", model " + std::to_string(hist.size()) + " after " + what); return; }
     }
     void op(const Op &o) {
-        const std::string &k = o.k; if (k == "err") return; size_t mk = w.mark(); std::vector<Frame> exp; bool frames = true;
+        const std::string &k = o.k; if (k == "err") return;
+        if (k == "cycles") {   // hundreds of activations without a history clear in between: every set / clear judged on its own, the history read back at the end (8 bit counters wrap at 256)
+            int64_t cnt = std::min<int64_t>(o.arg(1), 600); cov.hit("long-run-of-activations"); if (cnt >= 256) { cov.hit("run-of-256-or-more-activations"); nontrivial = true; }
+            for (int64_t i = 0; i < cnt && v.ok; i++) { Op st("set", {o.arg(0), (int64_t)(i & 1), (int64_t)(i * 7 & 0xFFFF)}); st.b = {(uint8_t)i, 2, 3, 4, 5}; op(st); if (v.ok) op(Op("clr", {o.arg(0)})); if (v.ok && (i % 64 == 63 || i + 1 == cnt)) for (int q = 0; q <= depth && v.ok; q++) op(Op("rd1003", {(int64_t)q})); }
+            return; }
+        size_t mk = w.mark(); std::vector<Frame> exp; bool frames = true;
         if (k == "set") {
             size_t e = (size_t)o.arg(0) % tbl.size(); bool usr = o.arg(1) != 0; CO_EMCY_USR u; u.Hist = (uint16_t)o.arg(2); for (int i = 0; i < 5; i++) u.Emcy[i] = i < (int)o.b.size() ? o.b[(size_t)i] : 0;
             bool was = act[e]; w.cur = 0; COEmcySet(&N()->Emcy, (uint8_t)e, usr ? &u : nullptr);
@@ -97,6 +102,7 @@ Plan gen_emcy(Rng &r, bool thorough) {
         else if (c == 20) p.ops.push_back(Op("wr1003", {r.chance(1, 2) ? 0 : r.range(1, 255)}));
         else if (c < 23) p.ops.push_back(Op("w1014", {(int64_t)r.below(2)}));
         else p.ops.push_back(Op("sendfail", {r.range(1, 2)}));
+        if (r.chance(1, 300)) p.ops.push_back(Op("cycles", {(int64_t)r.below((uint32_t)ne), r.pick<int64_t>({130, 255, 256, 257, 300, 520})}));
     }
     return p;
 }
